@@ -50,3 +50,29 @@ Example C04_example_mid_update :
     filter (fun x => match x with ORet _ _ _ => true | _ => false end) o =
       [ORet 0 RetFresh (rec_of 7 1); ORet 0 RetCache (rec_of 7 1); ORet 0 RetCache (rec_of 7 1); ORet 0 RetFresh (rec_of 7 3)].
 Proof. eexists _, _. split; vm_compute; reflexivity. Qed.
+
+(* clause (b): attached clients see the restarted daemon's publications without reopening.
+   [ts] ranges over every schedule, in particular those with TCrash / TRestart at any access and
+   any number of them; [r] is a reader attached at any earlier time.  Whenever the (restarted)
+   writer has completed a publication and is not inside another one, the reader's next call
+   returns that publication (exception as in C03: live generation = cached generation).
+   Clause (a) is C02_RA + C03_monotone_RA, whose schedules contain the same tokens. *)
+From CB Require Import SeqlockInv SeqlockRA SeqlockFresh.
+Open Scope Z_scope.
+
+Theorem C04_restarted_publications_seen : forall c ts m o j r q e, safe_cfg c = true -> (0 < c_retries c)%N ->
+  Forall real_token ts -> m_run (m_init c) ts = (m, o) ->
+  nth_error (m_rs m) j = Some r -> r_pc r = RIdle ->
+  latest LGen (w_log (m_w m)) = Some q -> ev (w_log (m_w m)) q = Some e -> e_kind e = KEven ->
+  exists k m' pre ret r', (k <= c_cells c + 4)%nat /\
+    m_run m (repeat (TR j None) k) = (m', pre ++ [ORet j ret (r_cache r')]) /\ Forall is_access pre /\
+    nth_error (m_rs m') j = Some r' /\ r_pc r' = RIdle /\ m_w m' = m_w m /\
+    ((ret = RetFresh /\ r_cache r' = rec_of (c_cells c) (e_att e) /\ r_cache_gen r' = e_val e) \/
+     (ret = RetCache /\ r_cache r' = r_cache r /\ e_val e = r_cache_gen r)).
+Proof. exact fresh_machine. Qed.
+
+(* while a client is attached the segment is never emptied: the header stays valid through every
+   step, crash and restart, for any number of publications *)
+Theorem C04_never_emptied_under_clients : forall c ts m o, safe_cfg c = true -> Forall real_token ts ->
+  m_run (m_init c) ts = (m, o) -> m_rs m <> [] -> header_valid (w_log (m_w m)) = true.
+Proof. intros c ts m o Hs Hts R. exact (F_valid _ _ (m_run_F c Hs ts (m_init c) m o (MInvF_init c) Hts R)). Qed.
